@@ -301,6 +301,14 @@ func suiteC13(c *ctx) {
 		}
 		rc.Prior = pr
 		switch i % 10 {
+		case 6:
+			// the first stream leaves a long-code table behind; the next stream uses a code word that is
+			// unassigned in ITS code and lands on a slot of that table
+			if api == "flate" {
+				pr.Stream = StreamSpec{Kind: "synth", Synth: &SynthSpec{Seed: r.U64(), Blocks: 1, Kinds: "H", Size: 1}}
+				pr.Cut, pr.Read = -1, -1
+				rc.Stream = StreamSpec{Kind: "synth", Synth: &SynthSpec{Seed: pr.Stream.Synth.Seed, Blocks: 1, Kinds: "H", Size: 2}}
+			}
 		case 7:
 			// the abandoned stream stopped inside a block header (staged header bytes); the next stream's
 			// first header arrives in pieces
